@@ -8,7 +8,7 @@
    what it does (returns, returns a nil finish function, panics with an error /
    string / other value).  Every theorem below quantifies over all of them. *)
 From Coq Require Import List NArith Bool.
-From GQL Require Import Ext.ExtensionsModel Ext.ExtensionsSpec Proofs.ExtProofs.
+From GQL Require Import Ext.ExtensionsModel Ext.ExtensionsSpec Proofs.ExtProofs Proofs.ExtOutcome.
 Import ListNotations.
 Open Scope N_scope.
 
@@ -54,29 +54,57 @@ Proof.
 Qed.
 Print Assumptions C17_isolated.
 
-(* The executable Spec the runner applies to the implementation's log accepts
-   every log of the model (so a code-2 verdict is never an artefact of the
-   checkers). The finish-outcome clause (outcomesb) is applied by the runner
-   to the implementation's log as well; it is not covered by this theorem. *)
-Theorem C17_spec_accepts_model_partial : forall c exts,
-  let l := result_log (do_model c exts) in
-  balancedb l = true /\ nestedb l = true /\ orderedb l = true /\ stopsb l = true.
+(* Every finish function receives the outcome of its phase (outcome_ok):
+   - parse: an error iff the document does not parse or a ParseDidStart hook
+     failed;
+   - validation: the validation errors of the document (their number), or the
+     errors of the failed ValidationDidStart hooks;
+   - execution: the result, carrying one error per hook failure so far plus the
+     request's own errors (failed resolver calls, deferred values that failed);
+   - resolve: the k-th notification is given the value / error of the k-th
+     resolver call in execution order (which field, failed or not: rout). *)
+Theorem C17_finish_outcome : forall c exts, outcomesb c (result_log (do_model c exts)) = true.
+Proof. exact model_outcomes. Qed.
+Print Assumptions C17_finish_outcome.
+
+(* The executable Spec the runner applies to the implementation's run accepts
+   every run of the model: a code-2 verdict is never an artefact of the
+   checkers, and implementation = model implies the Spec holds. *)
+Theorem C17_spec_accepts_model : forall c exts log n keys,
+  do_model c exts = Done log n keys -> spec_ok c log n = true.
 Proof.
-  intros c exts l. destruct (model_checks_per_ext c exts) as [A [B C]].
-  repeat split; try assumption. apply model_stops.
+  intros c exts log n keys E. unfold spec_ok.
+  destruct (model_checks_per_ext c exts) as [A [B C]].
+  pose proof (model_stops c exts) as D. pose proof (model_outcomes c exts) as O.
+  rewrite E in A, B, C, D, O. cbn [result_log] in A, B, C, D, O.
+  rewrite A, B, C, D, O, (model_reported c exts log n keys E). reflexivity.
 Qed.
-Print Assumptions C17_spec_accepts_model_partial.
+Print Assumptions C17_spec_accepts_model.
 
 (* Non-vacuity: two extensions; the second one's ValidationDidStart panics
    with an int, the first one's started validation phase is still finished
    (with the failure as outcome), execution never starts, one error. *)
 Example C17_nonvacuous :
-  do_model (CExec [ROk])
+  do_model (CExec false [Node 0 false ROk TNow []])
     [mkExt 1 BOk (SFn BOk) (SFn BOk) (SFn BOk) [] HTrue BOk;
      mkExt 2 BOk (SFn BOk) (SPanic PVInt) (SFn BOk) [] HTrue BOk] =
   Done [EInit 0 true; EInit 1 true;
         EStart 0 PParse SROk; EStart 1 PParse SROk; EFinish 0 PParse 0 true; EFinish 1 PParse 0 true;
         EStart 0 PValid SROk; EStart 1 PValid SRFail; EFinish 0 PValid 1 true] 1 [].
+Proof. reflexivity. Qed.
+
+(* Non-vacuity of the execution order: query { a: f0 (deferred) { b } c }:
+   a's notification is finished when its resolver returns, c runs next, b runs
+   when a's value is forced; every finish is told its own field (2*id). *)
+Example C17_deferred_order :
+  do_model (CExec false [Node 0 false ROk TLater [Node 1 false ROk TNow []]; Node 2 false ROk TNow []])
+    [mkExt 1 BOk (SFn BOk) (SFn BOk) (SFn BOk) [] HFalse BOk] =
+  Done [EInit 0 true; EStart 0 PParse SROk; EFinish 0 PParse 0 true;
+        EStart 0 PValid SROk; EFinish 0 PValid 0 true; EStart 0 PExec SROk;
+        EStart 0 (PResolve 0) SROk; EFinish 0 (PResolve 0) 0 true;
+        EStart 0 (PResolve 1) SROk; EFinish 0 (PResolve 1) 4 true;
+        EStart 0 (PResolve 2) SROk; EFinish 0 (PResolve 2) 2 true;
+        EFinish 0 PExec 0 true; EHas 0 HRFalse] 0 [].
 Proof. reflexivity. Qed.
 
 (* the predicates do reject: an unfinished phase, a crossed pair, a late start *)
@@ -85,5 +113,6 @@ Example C17_spec_rejects :
   nestedb [EStart 0 PExec SROk; EStart 0 (PResolve 0) SROk; EFinish 0 PExec 0 true; EFinish 0 (PResolve 0) 0 true] = false /\
   orderedb [EStart 0 PValid SROk; EFinish 0 PValid 0 true; EStart 0 PParse SROk; EFinish 0 PParse 0 true] = false /\
   stopsb [EStart 0 PParse SRFail; EStart 0 PValid SROk; EFinish 0 PValid 0 true] = false /\
-  reportedb [EInit 0 false] 0 = false.
+  reportedb [EInit 0 false] 0 = false /\
+  outcomesb CSyntax [EStart 0 PParse SROk; EFinish 0 PParse 0 true] = false.
 Proof. repeat split; reflexivity. Qed.
